@@ -9,7 +9,7 @@ from props import e1util
 from props.e1util import unhex
 
 TIE = ["Nsq.Tie.Num", "Nsq.Tie.PQ", "Nsq.Tie.TickLoop"]
-PROPS = ["Nsq.Props.C04", "Nsq.Props.C04Live"]
+PROPS = ["Nsq.Props.C04", "Nsq.Props.C04Live", "Nsq.Props.C04Micro"]
 MAXI64 = 2 ** 63 - 1
 
 
@@ -266,6 +266,18 @@ def run_wall(ctx, binp, corr_broken):
     elif "no tests to run" not in out4:
         ctx.log("TestVerifScanWindowReplay did not complete (rc=%s):\n%s" % (rc4, out4[-1500:]))
         corr_broken.append("scan-window replay exit %s" % rc4)
+    # open finding stale-heap-entry-hides-due (audit A3, proposed fix F48): replayed on every run, KNOWN-FINDING only while it reproduces
+    rc5, out5 = ctx.run_cmd([binp, "-test.run", "^TestVerifStaleHeapReplay$", "-test.count=1", "-test.timeout=120s"],
+                            timeout=150, env={"VERIF_SEED": ctx.seed, "VERIF_OUT": ctx.work})
+    m5 = re.search(r"^STALEHEAP reproduced=(\w+).*$", out5, re.M)
+    if m5:
+        ctx.corr["stale_heap_replay"] = m5.group(0)[:700]
+        if m5.group(1) == "true":
+            ctx.violation("stale-heap-entry-hides-due", m5.group(0)[:700],
+                          open(os.path.join(ROOT, "corpus", "C04", "known", "stale_heap_entry.ops")).read() + m5.group(0) + "\n")
+    elif "no tests to run" not in out5:
+        ctx.log("TestVerifStaleHeapReplay did not complete (rc=%s):\n%s" % (rc5, out5[-1500:]))
+        corr_broken.append("stale-heap replay exit %s" % rc5)
     rc2, out2 = ctx.run_cmd([binp, "-test.run", "^TestVerifTouchTCP$", "-test.count=1", "-test.timeout=300s"],
                             timeout=330, env={"VERIF_SEED": ctx.seed, "VERIF_N": ctx.budget(30, 300), "VERIF_OUT": ctx.work})
     for l in out2.splitlines():
